@@ -829,7 +829,7 @@ pub fn c19_plan(tier: Tier) -> Plan {
     let mut spaces = Vec::new();
     {
         let devs = devs.clone();
-        let seeds: u64 = if tier == Tier::Quick { 1 } else { 6 };
+        let seeds: u64 = if tier == Tier::Quick { 2 } else { 20 };
         spaces.push(Space {
             name: "Q.strict.single-deviation",
             size: devs.len() as u64 * seeds,
@@ -848,7 +848,7 @@ pub fn c19_plan(tier: Tier) -> Plan {
         });
     }
     {
-        let n = if tier == Tier::Quick { 400 } else { 12_000 };
+        let n = if tier == Tier::Quick { 1_000 } else { 40_000 };
         spaces.push(Space {
             name: "Q.canonical.concurrent",
             size: n,
@@ -862,7 +862,7 @@ pub fn c19_plan(tier: Tier) -> Plan {
     }
     {
         let devs = devs.clone();
-        let n = if tier == Tier::Quick { 600 } else { 20_000 };
+        let n = if tier == Tier::Quick { 1_500 } else { 60_000 };
         spaces.push(Space {
             name: "Q.mixed",
             size: n,
@@ -879,7 +879,7 @@ pub fn c19_plan(tier: Tier) -> Plan {
     {
         // schedule-dependent deviations get many schedules each
         let races: Vec<Deviation> = devs.iter().filter(|d| matches!(d.m, Mut::Race { .. } | Mut::Duplicate)).cloned().collect();
-        let seeds: u64 = if tier == Tier::Quick { 12 } else { 300 };
+        let seeds: u64 = if tier == Tier::Quick { 20 } else { 600 };
         spaces.push(Space {
             name: "Q.strict.same-step-races",
             size: races.len() as u64 * seeds,
@@ -899,7 +899,7 @@ pub fn c19_plan(tier: Tier) -> Plan {
     }
     {
         // fault-injecting configuration: a monotonic clock with millisecond granularity
-        let n = if tier == Tier::Quick { 200 } else { 6_000 };
+        let n = if tier == Tier::Quick { 400 } else { 10_000 };
         spaces.push(Space {
             name: "Q.canonical.coarse-clock",
             size: n,
@@ -922,7 +922,7 @@ pub fn c19_plan(tier: Tier) -> Plan {
     }
     Plan {
         spaces,
-        rule: format!("Q: the real certification service behind the real listen loop on the simulated network. Strictness: {} single deviations = for every step Start..End: every scalar leaf of its canonical parameters changed / retyped / removed, every member removed, array shortened, unknown / missing / ill-typed client id, no parameters; the parameters member replaced by a non-object; every wrong combination of more / oneway / upgrade; every other step's canonical request sent at this position; the step's own request sent twice in one write, and at the same time on 2 / 3 / 5 connections under one client id (many seeded schedules each) - each after the canonical prefix on a raw connection (complete enumeration; canonical parameters are taken from a raw canonical walk against the service itself, mutations that deserialize to the same typed value are excluded by construction). Concurrency: 1..16 real canonical clients (run_client + generated stubs) with scheduler-interleaved steps; mixed runs with deviating raw clients beside canonical ones. Oracle: a deviating request is answered with CertificationError / ClientIdError / InvalidParameter, or not at all, never without an error; every canonical client returns Ok; issued client ids are pairwise distinct.", ndev),
+        rule: format!("Q: the real certification service behind the real listen loop on the simulated network. Strictness: {} single deviations = for every step Start..End: every scalar leaf of its canonical parameters changed / retyped / removed, every member removed, array shortened, unknown / missing / ill-typed client id, no parameters; the parameters member replaced by a non-object; every wrong combination of more / oneway / upgrade; every other step's canonical request sent at this position; the step's own request sent twice in one write, and at the same time on 2 / 3 / 5 connections under one client id (20 (quick) / 600 (thorough) seeded schedules each) - each after the canonical prefix on a raw connection (complete enumeration; canonical parameters are taken from a raw canonical walk against the service itself, mutations that deserialize to the same typed value are excluded by construction). Concurrency: 1..16 real canonical clients (run_client + generated stubs) with scheduler-interleaved steps; mixed runs with deviating raw clients beside canonical ones. Oracle: a deviating request is answered with CertificationError / ClientIdError / InvalidParameter, or not at all, never without an error; every canonical client returns Ok; issued client ids are pairwise distinct.", ndev),
         level: "exploration",
         real: vec![
             "varlink-certification/src/main.rs: run_server, CertInterface, ClientIds, check_call_* macros, run_client (included verbatim)",
